@@ -65,6 +65,20 @@ def implies(a, b):
     return z3.Implies(a, b)
 
 
+def abstract(formulas, terms):
+    """Replace each of the given (large) terms by a fresh constant in all formulas.  Proving the abstracted query is sound for `unsat`
+    (the fresh constants generalise the terms); used when an obligation treats big sub-results as opaque values."""
+    subs = []
+    seen = set()
+    for t in terms:
+        if isinstance(t, z3.ExprRef) and t.get_id() not in seen and not (z3.is_const(t) and t.decl().kind() == z3.Z3_OP_UNINTERPRETED) and not z3.is_rational_value(t) and not z3.is_int_value(t):
+            seen.add(t.get_id())
+            subs.append((t, z3.FreshConst(t.sort(), "abs")))
+    if not subs:
+        return list(formulas)
+    return [z3.substitute(f, *subs) if isinstance(f, z3.ExprRef) else f for f in formulas]
+
+
 def eq_elem(a, b, o=None):
     """equality of two elements; True if syntactically identical"""
     if isconc(a) and isconc(b):
@@ -262,7 +276,7 @@ class Check:
         return ok
 
     def prove(self, oid, assumptions, goal, *, nonlinear=False, timeout=None, replay=None, margin_goal=None,
-              ackermann=None, sample=True, axioms=True, extra_axioms=None):
+              ackermann=None, sample=True, axioms=True, extra_axioms=None, search_hints=None):
         """Decide `assumptions => goal` for all values of the symbols.  `replay(result) -> (bool, info)` runs the
         real code on the counterexample; a counterexample is reported only when it reproduces."""
         if self.only is not None and oid != self.only:
@@ -282,6 +296,15 @@ class Check:
         res = solve.decide(fs, timeout_s=timeout or self.default_timeout, nonlinear=nonlinear, ackermann=ackermann, second=self.second)
         self.queries += 1
         self.solver_time += res.time
+        if res.status == "unknown" and search_hints:
+            # counterexample search in a sub-space (e.g. network parameters instantiated): a `sat` there is a genuine counterexample of the
+            # general obligation; anything else leaves the obligation undecided
+            fs_h = fs + [h for h in search_hints if not (isconc(h) and h)]
+            res_h = solve.decide(fs_h, timeout_s=timeout or self.default_timeout, nonlinear=nonlinear, ackermann=ackermann)
+            self.queries += 1
+            self.solver_time += res_h.time
+            if res_h.status == "sat":
+                res = res_h
         ob.time = res.time
         ob.solver = res.solver
         ob.status = res.status
